@@ -296,7 +296,7 @@ def generic_state_rule(prop, project, result):
                             "copy(), survives transforms / masking / retargeting and is never invalidated, so later answers describe the object as it was" % (c.name, lazy[0], attr))
 
 
-def aliasing_profile(project, f, fresh_helpers=()):
+def aliasing_profile(project, f, fresh_helpers=(), lenient=False):
     """(whole-buffer stores, calls with copy=False, explicit copies) of a function; explicit copies made by helper functions
     that did not exist on the confirmed tree count for their caller (an extracted helper must not hide a copy)"""
     import ast as _ast
@@ -343,6 +343,9 @@ def aliasing_profile(project, f, fresh_helpers=()):
                 copies.append(n)
             elif isinstance(fn, _ast.Name) and fn.id == "deepcopy":
                 copies.append(n)
+            elif lenient and isinstance(fn, _ast.Attribute) and isinstance(fn.value, _ast.Name) and fn.value.id == "np" and fn.attr == "array" and n.args \
+                    and not any(kw.arg == "copy" and isinstance(kw.value, _ast.Constant) and kw.value.value is False for kw in n.keywords):
+                copies.append(n)  # counted on the tree under analysis only: np.array(x) is another spelling of x.copy()
     extra = 0
     if fresh_helpers:
         from .calls import CallCtx
@@ -353,7 +356,7 @@ def aliasing_profile(project, f, fresh_helpers=()):
             for t in ctx.resolve_call(k):
                 if t.func.qualname in fresh_helpers and t.func.qualname not in seen:
                     seen.add(t.func.qualname)
-                    extra += len(aliasing_profile(project, t.func)[2])
+                    extra += len(aliasing_profile(project, t.func, lenient=lenient)[2])
     return inplace, nocopy, copies, extra
 
 
@@ -377,7 +380,7 @@ def generic_alias_rules(prop, project, result):
             continue
         r6.instance(f)
         r7.instance(f)
-        inplace, nocopy, copies, extra = aliasing_profile(project, f, fresh)
+        inplace, nocopy, copies, extra = aliasing_profile(project, f, fresh, lenient=True)
         if len(inplace) > ref[0]:
             n = inplace[-1]
             r6.violation(f, n, "%s now overwrites a whole existing buffer in place (`%s`): the new values are cast to the dtype the buffer already had and every other "
@@ -391,6 +394,73 @@ def generic_alias_rules(prop, project, result):
             r7.violation(f, f.node, "%s makes %d explicit copies, the confirmed code %d: an array or container that was duplicated is now shared with its source" % (f.short, len(copies) + extra, ref[2]))
         else:
             r7.ok()
+
+
+_RISKY_FLAGS = {("assume_unique", True), ("assume_sorted", True), ("check_finite", False), ("overwrite_a", True), ("overwrite_b", True), ("overwrite_x", True),
+                ("overwrite_input", True), ("validate", False), ("bounds_error", False)}
+_NARROW = {"uint8", "uint16", "int8", "int16", "float16", "float32", "half", "single", "short", "ubyte", "ushort"}
+_BROAD = {"Exception", "BaseException", "ValueError", "TypeError", "KeyError", "IndexError", "AttributeError", "ArithmeticError", "LookupError", "RuntimeError"}
+
+
+def shortcut_profile(f):
+    """(keywords that switch off a library routine's own checks, mentions of narrow numeric types, broad exception handlers)"""
+    import ast as _ast
+    flags, narrow, handlers = [], [], []
+    for n in _ast.walk(f.node):
+        if isinstance(n, _ast.Call):
+            for kw in n.keywords:
+                if isinstance(kw.value, _ast.Constant) and (kw.arg, kw.value.value) in _RISKY_FLAGS and isinstance(kw.value.value, bool):
+                    flags.append(n)
+        if isinstance(n, _ast.Attribute) and n.attr in _NARROW and isinstance(n.value, _ast.Name) and n.value.id in ("np", "numpy"):
+            narrow.append(n)
+        elif isinstance(n, _ast.Constant) and isinstance(n.value, str) and n.value in _NARROW:
+            narrow.append(n)
+        if isinstance(n, _ast.ExceptHandler):
+            names = []
+            if n.type is None:
+                names = ["<bare>"]
+            else:
+                for t in (n.type.elts if isinstance(n.type, _ast.Tuple) else [n.type]):
+                    names.append(t.attr if isinstance(t, _ast.Attribute) else getattr(t, "id", "?"))
+            if any(x in _BROAD or x == "<bare>" for x in names):
+                handlers.append(n)
+    return flags, narrow, handlers
+
+
+def generic_shortcut_rule(prop, project, result):
+    """Cxx.G10: no function of the scope gains (a) a keyword that switches off a library routine's own precondition check
+    (assume_unique=True, check_finite=False, overwrite_a=True ...), (b) a narrow numeric type (uint16, float32 ...) it did not
+    mention, (c) a handler for a broad exception class around code that had none: each trades a stated precondition, range or
+    error contract of the confirmed code for one that holds only on the inputs the author had in mind."""
+    table = _scope().get("#shortcut", {})
+    scope = _scope().get(prop) or {}
+    if not table or not scope:
+        return
+    r = result.rule("%s.G10" % prop, "no new unchecked shortcuts: precondition-waiving keywords, narrow numeric types, broad exception handlers")
+    index = {f.qualname: f for f in project.all_functions()}
+    import ast as _ast
+    for q in scope:
+        f = index.get(q)
+        ref = table.get(q)
+        if f is None or ref is None:
+            continue
+        r.instance(f)
+        flags, narrow, handlers = shortcut_profile(f)
+        bad = False
+        if len(flags) > ref[0]:
+            bad = True
+            r.violation(f, flags[-1], "%s now calls `%s`: the keyword waives a check the library routine makes by default, and the precondition it assumes is not established here for every input"
+                        % (f.short, _ast.unparse(flags[-1])[:90]))
+        if len(narrow) > ref[1]:
+            bad = True
+            r.violation(f, narrow[-1], "%s now uses the narrow numeric type `%s`, which the confirmed code did not: values outside its range or precision wrap or are rounded silently"
+                        % (f.short, _ast.unparse(narrow[-1])))
+        if len(handlers) > ref[2]:
+            bad = True
+            r.violation(f, handlers[-1], "%s now intercepts a broad exception class (`%s`): the specific errors the confirmed code let through (and callers rely on) are swallowed or re-labelled"
+                        % (f.short, _ast.unparse(handlers[-1]).splitlines()[0][:80]))
+        if not bad:
+            r.ok()
 
 
 _BUILTIN_NOISE = {"len", "isinstance", "range", "print", "int", "float", "str", "list", "tuple", "dict", "set", "type", "getattr", "hasattr", "enumerate", "zip", "super",
@@ -439,6 +509,11 @@ def control_profile(f):
                 sites.setdefault(k, []).append(stmt_of(n))
         elif isinstance(n, _ast.Raise):
             sites.setdefault("raise", []).append(n)
+        elif isinstance(n, (_ast.Assign, _ast.AugAssign)) and f.params:
+            for t in (n.targets if isinstance(n, _ast.Assign) else [n.target]):
+                for e in (t.elts if isinstance(t, (_ast.Tuple, _ast.List)) else [t]):
+                    if isinstance(e, _ast.Attribute) and isinstance(e.value, _ast.Name) and e.value.id == f.params[0]:
+                        sites.setdefault("store:" + e.attr, []).append(n)
     must = set()
     for k, sts in sites.items():
         if k == "raise":
@@ -480,7 +555,7 @@ def generic_control_rules(prop, project, result):
     if not table or not scope:
         return
     r8 = result.rule("%s.G8" % prop, "calls guarded by an option still run under the same polarity of that option")
-    r9 = result.rule("%s.G9" % prop, "calls on every normal path of a function on the confirmed tree are still on every normal path")
+    r9 = result.rule("%s.G9" % prop, "calls and state updates on every normal path of a function on the confirmed tree are still on every normal path")
     index = {f.qualname: f for f in project.all_functions()}
     defined = {f.name for f in project.all_functions()} | {c.name for c in project.classes.values()}
     for q in scope:
@@ -500,13 +575,14 @@ def generic_control_rules(prop, project, result):
             r8.violation(f, f.node, "in %s `%s` %s only when `%s` is %s; on the confirmed tree it was when it is %s: the option now does the opposite of what it says"
                          % (f.short, callee, "is raised" if callee == "raise" else "is called", prm, "true" if got else "false", "true" if want else "false"))
         for callee in ref.get("must", []):
-            if callee not in defined:
+            if callee not in defined and not callee.startswith("store:"):
                 continue  # a library routine: another spelling of it on some path is not this rule's business
             if callee in must or callee not in present:
                 r9.ok()
                 continue
-            r9.violation(f, f.node, "%s no longer calls `%s` on every path that returns normally: some path (a new early return or a new condition) now skips it, the confirmed code never did"
-                         % (f.short, callee))
+            what = "updates `self.%s`" % callee[6:] if callee.startswith("store:") else "calls `%s`" % callee
+            r9.violation(f, f.node, "%s no longer %s on every path that returns normally: some path (a new early return or a new condition) now skips it, the confirmed code never did"
+                         % (f.short, what))
 
 
 CACHE_DECORATORS = {"lru_cache", "cache", "cached", "memoize", "memoized", "cached_property"}
@@ -594,6 +670,7 @@ def run_rules(mod, project, tier="quick", result=None, generic=True):
             generic_state_rule(mod.PROP, project, result)
             generic_alias_rules(mod.PROP, project, result)
             generic_control_rules(mod.PROP, project, result)
+            generic_shortcut_rule(mod.PROP, project, result)
         except Exception as e:
             result.error("generic rules: internal error %s: %s" % (type(e).__name__, e))
     anchor_filter(mod.PROP, result)
